@@ -16,6 +16,7 @@ BIN="$ROOT/.bin"
 mkdir -p "$BIN" "$ROOT/evidence" "$ROOT/replays"
 cd "$ROOT/harness" || exit 4
 if [ "$VERIF_REPO" != "/repo" ]; then
+  export VERIF_EVIDENCE_DIR="$BIN/evidence-scratch"   # never overwrite /verif/evidence from a scratch tree
   # run against another tree (self-validation on scratch copies): private modfile
   MODF="$BIN/go.alt.$$.mod"
   sed "s#=> /repo#=> $VERIF_REPO#" go.mod > "$MODF"; cp go.sum "${MODF%.mod}.sum"
